@@ -78,7 +78,8 @@ def end_rules(ctx, prog):
         pt = next(iter(par)) if par and len(par) == 1 else None
         ct = next(iter(chi)) if chi and len(chi) == 1 else None
         flagged = {k[1]: v for k, v in st.res.items() if k[0] == "nb"}
-        ok = pt in flagged and flagged[pt] == fs(nb) and ct not in flagged and len(flagged) == 1
+        # the child's end may be touched only to make it (stay) blocking
+        ok = pt in flagged and flagged[pt] == fs(nb) and all(v == fs(0) for k, v in flagged.items() if k != pt)
         n += 1
         ctx.ob("C17.N1", "redirect_init [pipe for %s, nonblocking=%d]" % (stream, nb), "the requested mode is applied to the pipe end the "
                "parent receives (and only to it; the child's end is left in blocking mode)", ok,
